@@ -39,6 +39,7 @@ struct Ctx {
     thread_pool *pool = nullptr;
     int nthreads = 0;
     bool stop_requested = false; // somebody has called stop() or the destructor
+    bool stop_returned = false;  // ... and that call has returned
     bool d9 = false;             // entry h_raw_cancel
     int njobs = 0;
     Job jobs[MAXJ];
@@ -62,6 +63,7 @@ void do_stop() {
     G->stop_requested = true;
     G->pool->stop();
     check_workers_after_stop();
+    G->stop_returned = true;
 }
 void do_destroy() {
     G->stop_requested = true;
@@ -69,6 +71,7 @@ void do_destroy() {
     G->pool = nullptr;
     delete p;
     check_workers_after_stop();
+    G->stop_returned = true;
 }
 
 // what every job does when it finally runs
@@ -153,6 +156,17 @@ void check_running() {
         if (J.ran) VF_ASSERT(J.tid >= 1 && J.tid <= G->nthreads, "C11 a job is executed on one of the pool's worker threads");
     }
 }
+// between two steps of the history (nothing is running, no coroutine queue is active): once stop() has returned, nothing waits for the pool any more
+void check_settled() {
+    if (!G->stop_returned) return;
+    for (int j = 0; j < G->njobs; j++) {
+        Job &J = G->jobs[j];
+        bool settled = true;
+        if (J.kind == K_COAWAIT || J.kind == K_DETACHED) settled = (J.ran + J.cancelled == 1);
+        else if (J.kind == K_RUN_FN) settled = J.f.ready();
+        VF_ASSERT(settled, "C11 after stop() has returned no submitted job is left pending: each has run or has been cancelled (no waiter hangs until the pool object dies)");
+    }
+}
 
 long summary() {
     long s = 0;
@@ -177,6 +191,7 @@ void run_history(bool d9) {
         else if (op == NKIND) { int t = 1 + vf_choice(n); vf_thread_run(t); }
         else do_stop();
         check_running();
+        check_settled();
         vf_out(summary());
     }
     if (vf_choice(2)) {          // drain: let every runnable worker run until all are idle
@@ -190,6 +205,7 @@ void run_history(bool d9) {
         if (!cx.stop_requested)
             for (int j = 0; j < cx.njobs; j++)
                 VF_ASSERT(cx.jobs[j].ran == 1, "C11 no job is forgotten: the pool is running, all workers are idle, yet a submitted job has not run");
+        check_settled();
         vf_out(summary());
     }
     if (cx.pool) do_destroy();
